@@ -251,6 +251,16 @@ def execute(plan, props):
             except Exception as e:  # noqa: BLE001 - xarray rejects it for any BASIC backend
                 bump("outside-property")
                 bump("outside:" + cls)
+                if "C11" in props and w.backend in world.RECORDED:
+                    # no reference value exists - but whatever the lazy load does (raise or
+                    # return), the requests it issues are still bound by the rule
+                    mark = SIM.mark()
+                    try:
+                        select.apply(da, sel).load()
+                    except Exception:  # noqa: BLE001
+                        pass
+                    violations.extend(check_load_events(SIM.since(mark), sel, cls + ":rejected",
+                                                        name, n, r_eff, ext, fsize, rel))
                 continue
             try:
                 eager = select.apply(twin, sel)
@@ -390,8 +400,12 @@ def check_load_events(events, sel, cls, image, n, r_eff, ext, fsize, rel):
                     out.append(Violation("C11", "load-read-outside-span", site, {
                         "group": g, "span_groups": [lo, hi], "rpc": r_eff, "selection": sel}))
                     break
-        # empty selection: no request is required, any request that satisfies the clauses
-        # above is tolerated (the statement bounds requests from above only)
+        else:
+            # no line selected: every group lies outside the (empty) span
+            for g in touched:
+                out.append(Violation("C11", "load-read-outside-span", site, {
+                    "group": g, "span_groups": [], "rpc": r_eff, "selection": sel}))
+                break
     return out
 
 
